@@ -43,6 +43,11 @@ import (
 //	observation  E:<hex>|D:<ok:hex / err>|M:<ok:hex / err>   or  newerr  (constructor refused)
 //	             "|NONDET" appended when a second, fresh primitive encrypts differently
 //
+//	C08|sivks|<v,id,key;...>|<primary index>|<pt>|<ad>|<j>|<mut>
+//	  a keyset of several AES-SIV keys (cleartext proto keyset read + daead.New(handle)); key j ALONE
+//	  (aessiv.NewDeterministicAEAD) produces ctj = Encrypt(pt, ad); mut (flip cut ext) is applied to ctj
+//	observation  E:<keyset Encrypt(pt,ad)>|D:<keyset Decrypt of it>|X:<keyset Decrypt(ctj)>|M:<keyset Decrypt(mut ctj)>
+//
 //	C08|kwp|<kek>|<data>|<mut>       mut: flip cut ext raw as above, applied to Wrap(data)
 //	observation  W:<hex / err>|U:<ok:hex / err / skip>|M:<ok:hex / err / skip>  or newerr
 //
@@ -273,11 +278,72 @@ func runKWP(f []string) string {
 	return out
 }
 
+type ksEntry struct {
+	v   string
+	id  uint32
+	key []byte
+}
+
+func parseKS(s string) []ksEntry {
+	var es []ksEntry
+	for _, e := range strings.Split(s, ";") {
+		p := strings.Split(e, ",")
+		id, _ := strconv.ParseUint(p[1], 10, 32)
+		es = append(es, ksEntry{p[0], uint32(id), hx.UH(p[2])})
+	}
+	return es
+}
+
+func runSIVKS(f []string) string {
+	es := parseKS(f[2])
+	pi, _ := strconv.Atoi(f[3])
+	pt, ad := hx.UH(f[4]), hx.UH(f[5])
+	j, _ := strconv.Atoi(f[6])
+	mu := parseMut(f[7])
+	ks := &tinkpb.Keyset{PrimaryKeyId: es[pi].id}
+	for _, e := range es {
+		kv, _ := proto.Marshal(&sivpb.AesSivKey{Version: 0, KeyValue: e.key})
+		ks.Key = append(ks.Key, &tinkpb.Keyset_Key{KeyId: e.id, Status: tinkpb.KeyStatusType_ENABLED, OutputPrefixType: sivPrefixType(e.v),
+			KeyData: &tinkpb.KeyData{TypeUrl: "type.googleapis.com/google.crypto.tink.AesSivKey", Value: kv, KeyMaterialType: tinkpb.KeyData_SYMMETRIC}})
+	}
+	h, err := insecurecleartextkeyset.Read(&keyset.MemReaderWriter{Keyset: ks})
+	if err != nil {
+		return "newerr"
+	}
+	d, err := daead.New(h)
+	if err != nil {
+		return "newerr"
+	}
+	kj, err := sivKey(es[j].v, es[j].id, es[j].key)
+	if err != nil {
+		return "newerr"
+	}
+	dj, err := aessiv.NewDeterministicAEAD(kj, internalapi.Token{})
+	if err != nil {
+		return "newerr"
+	}
+	ct, err := d.EncryptDeterministically(bytes.Clone(pt), bytes.Clone(ad))
+	if err != nil {
+		return "E:err"
+	}
+	ctj, err := dj.EncryptDeterministically(bytes.Clone(pt), bytes.Clone(ad))
+	if err != nil {
+		return "E:err"
+	}
+	out := "E:" + hx.H(ct)
+	out += "|D:" + okOrErr(d.DecryptDeterministically(bytes.Clone(ct), bytes.Clone(ad)))
+	out += "|X:" + okOrErr(d.DecryptDeterministically(bytes.Clone(ctj), bytes.Clone(ad)))
+	out += "|M:" + okOrErr(d.DecryptDeterministically(mu.apply(ctj), bytes.Clone(ad)))
+	return out
+}
+
 func c08Run(in string) string {
 	f := strings.Split(in, "|")
 	switch f[1] {
 	case "siv":
 		return runSIV(f)
+	case "sivks":
+		return runSIVKS(f)
 	case "kwp":
 		return runKWP(f)
 	case "katsiv":
@@ -315,6 +381,24 @@ func c08Check(in, obs string) string {
 	f := strings.Split(in, "|")
 	o := strings.Split(obs, "|")
 	switch f[1] {
+	case "sivks":
+		// written from the property: the keyset primitive inverts its own encryption and decrypts what
+		// ANY of its keys produced; a modified ciphertext is rejected (a flip / cut / extension of an
+		// AES-SIV ciphertext decrypts under no key of the keyset except with negligible probability)
+		want := "ok:" + f[4]
+		if len(o) != 4 {
+			return "keyset primitive could not be built or did not encrypt: " + obs
+		}
+		if o[1] != "D:"+want {
+			return "the keyset primitive does not decrypt its own ciphertext: " + o[1]
+		}
+		if o[2] != "X:"+want {
+			return fmt.Sprintf("the keyset primitive does not decrypt the ciphertext of its key %s: %s", f[6], o[2])
+		}
+		if o[3] != "M:err" {
+			return "the keyset primitive accepted a modified ciphertext: " + o[3]
+		}
+		return ""
 	case "siv":
 		key, pt, ad := hx.UH(f[5]), hx.UH(f[6]), hx.UH(f[7])
 		if obs == "newerr" {
@@ -574,6 +658,16 @@ func c08Class(in, obs string) string {
 		res = "rej"
 	}
 	switch f[1] {
+	case "sivks":
+		es := parseKS(f[2])
+		raws := 0
+		for _, e := range es {
+			if e.v == "R" {
+				raws++
+			}
+		}
+		j, _ := strconv.Atoi(f[6])
+		return fmt.Sprintf("sivks/%dkeys/%draw/ct-of-%s-key/%s/%s", len(es), raws, es[j].v, strings.SplitN(f[7], ":", 2)[0], res)
 	case "siv":
 		mk := strings.SplitN(f[8], ":", 2)[0]
 		return fmt.Sprintf("siv/%s/%s/pt%d/ad%s/%s/%s", f[2], f[3], len(hx.UH(f[6])), lenClass(len(hx.UH(f[7]))), mk, res)
@@ -659,6 +753,54 @@ func sivLine(r *hx.Rng, api, v string, keyLen, ptLen, adLen int) string {
 // kwpCraft makes W(aiv || body) whose plaintext is structurally wrong in one
 // place (padding byte, length field, prefix constant): the checks behind
 // invertW that random corruption never reaches.
+func sivksLine(r *hx.Rng, coincide bool) string {
+	nk := 2 + r.Intn(3)
+	var es []ksEntry
+	used := map[uint32]bool{}
+	for i := 0; i < nk; i++ {
+		v := hx.PickS(r, []string{"R", "R", "T", "C"})
+		if i < 2 && r.Chance(70) {
+			v = "R"
+		}
+		id := uint32(r.U64())
+		for used[id] || id == 0 {
+			id = uint32(r.U64())
+		}
+		used[id] = true
+		es = append(es, ksEntry{v, id, r.Bytes(64)})
+	}
+	pt, ad := r.Bytes(r.Intn(40)), r.Bytes(r.Intn(20))
+	j := r.Intn(nk)
+	if coincide {
+		// key 0 RAW, key 1 TINK with the id the RAW ciphertext spells: search a plaintext whose RAW
+		// ciphertext starts with 0x01 (the per-key primitive computes it)
+		es[0].v, es[1].v, j = "R", "T", 0
+		k0, err := sivKey("R", 0, es[0].key)
+		if err == nil {
+			if d0, err := aessiv.NewDeterministicAEAD(k0, internalapi.Token{}); err == nil {
+				for try := 0; try < 4000; try++ {
+					pt = r.Bytes(8 + r.Intn(24))
+					ct, err := d0.EncryptDeterministically(pt, ad)
+					if err == nil && ct[0] == 1 {
+						es[1].id = binary.BigEndian.Uint32(ct[1:5])
+						break
+					}
+				}
+			}
+		}
+	}
+	var parts []string
+	for _, e := range es {
+		parts = append(parts, fmt.Sprintf("%s,%d,%s", e.v, e.id, hx.H(e.key)))
+	}
+	ctLen := 16 + len(pt)
+	if es[j].v != "R" {
+		ctLen += 5
+	}
+	mu := hx.PickS(r, []string{fmt.Sprintf("flip:%d:%d", r.Intn(ctLen), 1<<uint(r.Intn(8))), fmt.Sprintf("cut:%d", r.Intn(ctLen)), "ext:" + hx.H(r.Bytes(1+r.Intn(4)))})
+	return fmt.Sprintf("C08|sivks|%s|%d|%s|%s|%d|%s", strings.Join(parts, ";"), r.Intn(nk), hx.H(pt), hx.H(ad), j, mu)
+}
+
 func kwpCraft(r *hx.Rng, kek, data []byte) string {
 	n := len(data)
 	pad := (8 - n%8) % 8
@@ -782,6 +924,13 @@ func c08Gen(r *hx.Rng, n int, tier string) []string {
 				lines = append(lines, sivLine(r, api, v, 64, p, r.Intn(40)))
 			}
 		}
+	}
+	// keysets of several AES-SIV keys with different material: at least two RAW keys in most of them (a
+	// RAW ciphertext must be tried against every RAW key), the ciphertext of each key decrypted through
+	// the keyset primitive; and the prefix coincidence: a RAW ciphertext that begins with the output
+	// prefix of a TINK key of the same keyset (the prefixed key is tried first and fails)
+	for c := 0; c < 60; c++ {
+		lines = append(lines, sivksLine(r, c%4 == 3))
 	}
 	// wrong key sizes (32 and 48 pass the parameter check, the primitive refuses)
 	for _, kl := range []int{0, 16, 32, 48, 63, 65, 128} {
